@@ -13,6 +13,7 @@ costs nothing.
 usage: build_core.py [--asan] [--repo /repo]   -> prints the directory
 """
 import hashlib
+import time
 import os
 import subprocess
 import sys
@@ -96,11 +97,14 @@ def build(repo='/repo', asan=False, quiet=True):
     except OSError:
         shutil.rmtree(out, ignore_errors=True)      # somebody else published the same build first
     out = final
-    # keep at most 12 cached builds
+    # keep at most 12 cached builds, but never evict one used within the last 8 hours: a concurrent check may
+    # still be running on it (a sanitizer report is symbolized from the files at process exit)
     base = os.path.dirname(out)
+    now = time.time()
     dirs = sorted((os.path.getmtime(os.path.join(base, d)), d) for d in os.listdir(base))
-    for _, d in dirs[:-12]:
-        shutil.rmtree(os.path.join(base, d), ignore_errors=True)
+    for mt, d in dirs[:-12]:
+        if now - mt > 8 * 3600:
+            shutil.rmtree(os.path.join(base, d), ignore_errors=True)
     return out
 
 
